@@ -137,8 +137,45 @@ def binding_demo(ctx, binp):
     ctx.cov["binding_demo"] = "rejected as they must be: " + ", ".join(sorted(variants))
 
 
+def startup_guard(ctx):
+    """The restart of the crash-cut runs replays thor's start-up sequence (sim.OpenStack): repository, log-db
+    resynchronisation by thor's own syncLogDB (taken from the tree under test), bft engine, node.  cmd/thor/main.go is
+    package main and cannot be linked, so the order itself is bound here textually: the functions the harness calls
+    must still be called by defaultAction, in that order, before the node is built.  A function that still exists but
+    is no longer called at start-up is an observation on the code (the node would come up without it); anything else
+    that does not match (renamed helpers, moved code) only means this harness must be updated: exit 2."""
+    import re
+    try:
+        main = open(os.path.join(ctx.repo, "cmd/thor/main.go")).read()
+        synclog = open(os.path.join(ctx.repo, "cmd/thor/sync_logdb.go")).read()
+    except OSError as e:
+        raise Infra("cannot read thor's start-up code: %s" % e)
+    m = re.search(r"func defaultAction\(.*?\n}\n", main, re.S)
+    if not m:
+        raise Infra("cmd/thor/main.go: defaultAction not found - the start-up replay of the harness must be re-derived")
+    body = m.group(0)
+    pos = {name: body.find(name) for name in ("initChainRepository(", "syncLogDB(", "bft.NewEngine(", "node.New(")}
+    if pos["syncLogDB("] < 0:
+        if re.search(r"^func syncLogDB\(", synclog, re.M):
+            rp = ctx.save_replay("startup-sequence.txt", body[:6000])
+            ctx.report("startup-sequence:log-db-not-resynchronised", "cmd/thor/main.go defaultAction no longer calls syncLogDB although "
+                       "the function exists: after a crash between the log-db commit and the block bulk the node comes up with "
+                       "a log db that is not the canonical chain's", rp)
+            return
+        raise Infra("syncLogDB is gone from cmd/thor: the start-up replay of the harness must be re-derived")
+    missing = [k for k, v in pos.items() if v < 0]
+    if missing:
+        raise Infra("defaultAction no longer contains %s: the start-up replay of the harness must be re-derived" % missing)
+    if not (pos["initChainRepository("] < pos["syncLogDB("] < pos["node.New("] and pos["bft.NewEngine("] < pos["node.New("]):
+        rp = ctx.save_replay("startup-sequence.txt", body[:6000])
+        ctx.report("startup-sequence:order", "cmd/thor/main.go defaultAction: repository, log-db resynchronisation and bft engine are no "
+                   "longer set up in that order before the node is built (positions %s)" % pos, rp)
+    ctx.cov["startup_sequence_bound"] = "initChainRepository < syncLogDB < node.New and bft.NewEngine < node.New in defaultAction"
+
+
 def run(ctx):
     q = ctx.quick
+    startup_guard(ctx)
     bft_ops = {"BFTOps.tla": os.path.join(os.path.dirname(os.path.dirname(os.path.abspath(__file__))), "specs/bft/BFTOps.tla")}
     # 1. design level: every cut of every import of the model stream (one fork, late sibling of a store point,
     #    4 epochs), up to 2 crashes; every cut except the F2 class converges
